@@ -25,7 +25,9 @@ INSTANCES = {
          "thorough": [inst(Which='{"C02"}', SubmitSet="Sub_All", CfgSet="Cfg_Versions", MaxOps=3)]},
  "C04": {"quick": [inst(Which='{"C04"}', SubmitSet="Sub_Q12Big", MaxConns=3, Caps="{1, 3}", InPubSet="In_Q1", MaxIn=1)],                                                             # 154k / 34 s
          "thorough": [inst(Which='{"C04"}', SubmitSet="Sub_Q12Big", MaxConns=3, CfgSet="Cfg_Policies", InPubSet="In_Q1", MaxIn=1, AckHows='{"normal", "fail", "dup"}')]},
- "C05": {"quick": [inst(Which='{"C05"}', SubmitSet="Sub_Q1", InPubSet="In_Basic", MaxIn=3, MaxOps=1, Others='{"InPubrel", "InPubrelUnknown"}')],                                      # 188k / 31 s
+ "C05": {"quick": [inst(Which='{"C05"}', SubmitSet="Sub_Q1", InPubSet="In_Basic", MaxIn=3, MaxOps=1, Others='{"InPubrel", "InPubrelUnknown"}'),
+                   # small: inbound only, two connections, every transition exported and replayed
+                   inst(Which='{"C05"}', SubmitSet="Sub_Q1", InPubSet="In_Q2", MaxIn=2, MaxOps=0, Others='{"InPubrel"}', Caps="{3}", _export_every=1)],                                      # 188k / 31 s
          "thorough": [inst(Which='{"C05"}', SubmitSet="Sub_Q1", InPubSet="In_Basic", MaxIn=4, MaxOps=1, MaxConns=3, Others='{"InPubrel", "InPubrelUnknown"}')]},
  "C06": {"quick": [inst(Which='{"C06"}', SubmitSet="Sub_Acked", PidMax=2, MaxOps=3, AckHows='{"normal", "fail"}'),                                                                     # 40k / 20 s
                    inst(Which='{"C06"}', SubmitSet="Sub_Acked", PidMax=2, MaxOps=2, AckHows='{"normal", "dup", "unknownid"}', Caps="{3}")],
@@ -74,6 +76,13 @@ ENGINE_DEFECTS = {
  "C01": [("pubrec-nomatch-terminal", inst(Which='{"C01"}', SubmitSet="Sub_Q2", AckHows='{"normal", "nomatch"}', MaxConns=1, MaxOps=1, Caps="{3}"), ["MonitorsQuiet"])],
  "C06": [("alloc-cleared-on-every-connack", inst(Which='{"C06"}', SubmitSet="Sub_Q1", PidMax=2, MaxOps=2, Caps="{3}"), ["AllocConsistent", "MonitorsQuiet"])],
  "C09": [("qos2-bypasses-receive-maximum", inst(Which='{"C09"}', ConnackSet="Ck_Rm1", MaxOps=2, MaxConns=1, SubmitSet="Sub_Q12Big", Caps="{3}"), ["MonitorsQuiet", "ReceiveMaximumRespected"])],
+ "C17": [("inbound-aliases-survive-resumed-session", inst(Which='{"C17"}', CfgSet="Cfg_AliasIn", InPubSet="In_Alias", MaxIn=2, MaxOps=0, MaxConns=2, Caps="{3}", ConnackSet="Ck_Plain"), ["MonitorsQuiet"])],
+ "C05": [("qos2in-kept-when-nothing-in-flight", inst(Which='{"C05"}', SubmitSet="Sub_Q1", InPubSet="In_Q2only", MaxIn=2, MaxOps=0, MaxConns=2, Caps="{3}"), ["MonitorsQuiet"])],
+ "C14": [("ping-pushout-uses-requested-keep-alive", inst(Which='{"C14"}', CfgSet="Cfg_KeepAlive", ConnackSet="Ck_Ka", Faithful="TRUE", Horizon=6, Deadline=20, MaxOps=1, SubmitSet="Sub_Q1", Others='{"Pingresp"}', MaxConns=1, Caps="{3}"), ["MonitorsQuiet"])],
+ "C07": [("settings-wiped-at-open", inst(Which='{"C07"}', CfgSet="Cfg_Rejoin", ConnackSet="Ck_Handshake", MaxConns=3, MaxOps=0, Others='{}', Caps="{3}"), ["MonitorsQuiet"])],
+ "C15": [("policy-before-inflight-exceptions", inst(Which='{"C15"}', CfgSet="Cfg_Policies4", SubmitSet="Sub_Q12Big", MaxOps=1, MaxConns=3, Caps="{1, 3}"), ["MonitorsQuiet"])],
+ "C18": [("interruptions-counted-when-bound", inst(Which='{"C18"}', CfgSet="Cfg_Retries", SubmitSet="Sub_Q12Big", MaxOps=2, MaxConns=3, Caps="{1, 3}"), ["MonitorsQuiet"])],
+ "C08": [("timer-dropped-while-write-pending", inst(Which='{"C08"}', SubmitSet="Sub_Timeouts2", Horizon=3, MaxOps=1, MaxConns=1, Caps="{3}"), ["NoStrandedWork", "MonitorsQuiet"])],
  "C10": [("resubmit-unsorted", inst(Which='{"C10"}', SubmitSet="Sub_Q1", MaxOps=2, MaxConns=2, Caps="{3}"), ["MonitorsQuiet"])],
 }
 
